@@ -1,5 +1,6 @@
 //! `circ-conf`: conformance harness for kaist-cp/circ (see /verif/DESIGN.md).
 mod alloc;
+mod rcdirected;
 mod rcrun;
 mod rcworld;
 mod sched;
@@ -38,39 +39,76 @@ fn main() {
         "rc-random" => {
             rc_setup();
             let seed: u64 = arg(&args, "--seed", 1);
-            let n: usize = arg(&args, "--n", 100);
-            let threads: usize = arg(&args, "--threads", 2);
-            let max_ops: usize = arg(&args, "--ops", 5);
-            let vocab = sarg(&args, "--vocab", "all");
-            let out = sarg(&args, "--out", "trace.ndjson");
-            let mut ctl = rcworld::Ctl::new(threads);
-            let mut rng = sched::Rng::new(seed);
-            let mut aborted = 0;
-            for i in 0..n {
-                let cfg = rcrun::RandCfg {
-                    vocab: rcrun::vocab(&vocab),
-                    template: rng.below(rcrun::NTEMPLATE),
-                    max_ops,
-                    p_adv: [0, 30, 80, 150][rng.below(4)],
-                    p_stay: [30, 60, 85][rng.below(3)],
-                    ntags: 4,
-                    stall: rng.chance(1, 3),
-                    residue: if rng.chance(1, 2) { Some(rng.below(16)) } else { None },
-                };
-                if !rcrun::run_random(&mut ctl, &cfg, &mut rng, &format!("rand:{}:{}:{}", vocab, seed, i)) {
-                    aborted += 1;
+            // plan: comma separated  vocab:n:threads:ops
+            let plan = sarg(&args, "--plan", "all:100:2:5");
+            let only: i64 = arg(&args, "--only", -1);
+            let tmpl: i64 = arg(&args, "--tmpl", -1);
+            let out = sarg(&args, "--out", "trace");
+            let mut summary = Vec::new();
+            for (k, ent) in plan.split(',').enumerate() {
+                let f: Vec<&str> = ent.split(':').collect();
+                let vocab = f[0].to_string();
+                let n: usize = f.get(1).and_then(|x| x.parse().ok()).unwrap_or(100);
+                let threads: usize = f.get(2).and_then(|x| x.parse().ok()).unwrap_or(2);
+                let max_ops: usize = f.get(3).and_then(|x| x.parse().ok()).unwrap_or(5);
+                let mut ctl = rcworld::Ctl::new(threads);
+                let mut aborted = 0;
+                let mut ran = 0;
+                for i in 0..n {
+                    if only >= 0 && only as usize != i {
+                        continue;
+                    }
+                    let mut rng = sched::Rng::new(seed.wrapping_mul(1_000_003).wrapping_add((k * 100_000 + i) as u64));
+                    let cfg = rcrun::RandCfg {
+                        vocab: rcrun::vocab(&vocab),
+                        template: if tmpl >= 0 { tmpl as usize } else { rng.below(rcrun::NTEMPLATE) },
+                        max_ops,
+                        p_adv: [0, 30, 80, 150][rng.below(4)],
+                        p_stay: [30, 60, 85][rng.below(3)],
+                        ntags: 4,
+                        stall: rng.chance(1, 3),
+                        residue: if rng.chance(1, 2) { Some(rng.below(16)) } else { None },
+                    };
+                    let label = format!("rand:{}:{}:{}:{}:{}:{}", vocab, seed, k, i, threads, max_ops);
+                    ran += 1;
+                    if !rcrun::run_random(&mut ctl, &cfg, &mut rng, &label) {
+                        aborted += 1;
+                    }
                 }
+                let file = format!("{}.{}.t{}.ndjson", out, k, threads);
+                write_out(&file, &ctl.out);
+                summary.push(format!(
+                    "{{\"file\":{:?},\"vocab\":{:?},\"threads\":{},\"scenarios\":{},\"aborted\":{},\"lines\":{},\"sites\":{{{}}},\"ops\":{{{}}}}}",
+                    file,
+                    vocab,
+                    threads,
+                    ran,
+                    aborted,
+                    ctl.out.len(),
+                    ctl.site_hits.iter().map(|(k, v)| format!("\"{}\":{}", k, v)).collect::<Vec<_>>().join(","),
+                    ctl.op_hits.iter().map(|(k, v)| format!("\"{}\":{}", k, v)).collect::<Vec<_>>().join(",")
+                ));
+                ctl.quit();
             }
-            write_out(&out, &ctl.out);
-            let stats = format!(
-                "{{\"scenarios\":{},\"aborted\":{},\"lines\":{},\"sites\":{:?},\"ops\":{:?}}}",
+            println!("{{\"runs\":[{}]}}", summary.join(","));
+        }
+        "rc-directed" => {
+            rc_setup();
+            let fam = sarg(&args, "--family", "all");
+            let out = sarg(&args, "--out", "dir");
+            let mut ctl = rcworld::Ctl::new(2);
+            let n = rcdirected::run_family(&mut ctl, &fam);
+            let file = format!("{}.t2.ndjson", out);
+            write_out(&file, &ctl.out);
+            println!(
+                "{{\"runs\":[{{\"file\":{:?},\"vocab\":\"directed:{}\",\"threads\":2,\"scenarios\":{},\"aborted\":0,\"lines\":{},\"sites\":{{{}}},\"ops\":{{{}}}}}]}}",
+                file,
+                fam,
                 n,
-                aborted,
                 ctl.out.len(),
-                ctl.site_hits.iter().map(|(k, v)| format!("{}:{}", k, v)).collect::<Vec<_>>(),
-                ctl.op_hits.iter().map(|(k, v)| format!("{}:{}", k, v)).collect::<Vec<_>>()
+                ctl.site_hits.iter().map(|(k, v)| format!("\"{}\":{}", k, v)).collect::<Vec<_>>().join(","),
+                ctl.op_hits.iter().map(|(k, v)| format!("\"{}\":{}", k, v)).collect::<Vec<_>>().join(",")
             );
-            println!("{}", stats);
             ctl.quit();
         }
         _ => {
